@@ -782,17 +782,11 @@ func (ex *Exec) applyContract(con *Contract, cname string, names []string, typs 
 	}
 	for _, m := range con.Modifies {
 		comps := ex.compsOfSpec(m, &CEnv{ex: ex, pkg: pkg})
-		var set []*Term
 		restricted := false
-		if es, ok := con.ModSets[m]; ok {
+		var es []*Expr
+		if e2, ok := con.ModSets[m]; ok {
 			restricted = true
-			for _, e := range es {
-				v, err := env.Eval(e)
-				if err != nil {
-					ex.fail("contract of %s: modifies set: %v", cname, err)
-				}
-				set = append(set, refOf(v.T))
-			}
+			es = e2
 		}
 		for _, c := range comps {
 			before := ex.heapGet(st, c, ex.allComps[c])
@@ -803,11 +797,11 @@ func (ex *Exec) applyContract(con *Contract, cname string, names []string, typs 
 					continue
 				}
 				q := Const("mf?"+c, SInt)
-				var notIn []*Term
-				for _, r := range set {
-					notIn = append(notIn, Neq(q, r))
+				notIn, err := ex.notInSet(env, es, q)
+				if err != nil {
+					ex.fail("contract of %s: modifies set: %v", cname, err)
 				}
-				ex.assume(Implies(reach, Forall([]*Term{q}, Implies(And(notIn...), Eq(Select(after, q), Select(before, q))))))
+				ex.assume(Implies(reach, Forall([]*Term{q}, Implies(notIn, Eq(Select(after, q), Select(before, q))))))
 			}
 		}
 	}
@@ -855,6 +849,27 @@ func (ex *Exec) applyContract(con *Contract, cname string, names []string, typs 
 		return out.Tup[0]
 	}
 	return out
+}
+
+// notInSet: q is not a member of the reference set described by es (evaluated in env).
+func (ex *Exec) notInSet(env *CEnv, es []*Expr, q *Term) (*Term, error) {
+	var cs []*Term
+	for _, e := range es {
+		if e.Kind == "setcomp" {
+			v, err := env.bind(e.Name, &CVal{T: q}).Eval(e.Args[0])
+			if err != nil {
+				return nil, err
+			}
+			cs = append(cs, Not(v.T))
+			continue
+		}
+		v, err := env.Eval(e)
+		if err != nil {
+			return nil, err
+		}
+		cs = append(cs, Neq(q, refOf(v.T)))
+	}
+	return And(cs...), nil
 }
 
 // refOf: the reference (struct ref / storage base) a value denotes.
